@@ -143,6 +143,9 @@ func VH_C07_fragmented() {
 	x := vhMakeExchange(kind, mode, q, vndParam("exc") == 1)
 	s := &vhScript{reply: x.reply}
 	E := x.req.ExpectedResponseLength()
+	if mode == 2 {
+		s.pauseEOF = vndBool("emptyReadsAreEOF")
+	}
 	vhFragmentation(s, len(x.reply), E, vndParam("chunks"))
 	c := vhNewClient(mode, s, false)
 	resp, err := c.do(x.req)
